@@ -210,8 +210,35 @@ int main(int argc, char** argv) {
   t5.group = "T5";
   t5.chunk = 64;
   t5.rule = "arrays [filler x F, L, trailer x (M-F-1)] for 1 <= M <= 120, 0 <= F < M, filler 1.2345678901234567 (18 bytes), L one of 6 longest number spellings (25-byte double in [1e-6,1e-5), extreme exponents, INT64_MIN, UINT64_MAX, 1.2e20): under ASan the exact-size write buffer makes any under-reservation a crash";
+  // T6: every fill level of the write buffer x every length of a string that expands six-fold
+  vr::Family t6;
+  static unsigned T6F, T6N;
+  T6F = 1101;
+  T6N = 351;
+  t6.name = "T6_fill_x_expanding_string";
+  t6.count = (uint64_t)T6F * T6N * 2;
+  t6.group = "T6";
+  t6.chunk = 512;
+  t6.rule = "arrays [[1,1,...],S,1]: an inner array of f in 0..1100 bytes of small numbers (which reserve little, and are not counted by the initial size estimate) brings the buffer to every fill level across its 256/512/1024 (fresh) and 100/200/.../1600 (WriteBuffer(16)) capacities, then a string S of n in 0..350 bytes, all 0x01 or alternating 0x01 / quote, asks for 6n+35 more: output compared byte for byte; under ASan any reservation that is too small is a crash";
+  // T7: neighbouring numbers in one document (output of a number must not depend on its neighbours)
+  vr::Family t7;
+  static std::vector<ref::Value> t7v;
+  if (t7v.empty()) {
+    for (double d : {0.0, -0.0, 1.0, -1.0, 1.5, 0.1, 0.3, 1.0 / 3, 1e300, 5e-324, 123456789.0, 1e21, 1e-7, 1.7976931348623157e308, 2.2250738585072014e-308, 100.0, 4294967296.0}) t7v.push_back(ref::Value::mkD(d));
+    t7v.push_back(ref::Value::mkU(0));
+    t7v.push_back(ref::Value::mkU(1));
+    t7v.push_back(ref::Value::mkI(-1));
+    t7v.push_back(ref::Value::mkU(100));
+  }
+  t7.name = "T7_neighbouring_numbers";
+  t7.count = (uint64_t)t7v.size() * t7v.size() * t7v.size();
+  t7.group = "T7";
+  t7.chunk = 32;
+  t7.rule = "all ordered triples (x,y,z) over " + std::to_string(t7v.size()) + " numbers (+-0.0, equal values of different kinds 0 / 0.0, 1 / 1.0, 100 / 100.0, extremes) set through the API as [x,y,z], {\"a\":x,\"b\":y,\"c\":z}, [x,\"s\",[y],z]: each number must be printed as it is alone, kinds and signs kept";
   fams.push_back(g1);
   fams.push_back(t5);
+  fams.push_back(t6);
+  fams.push_back(t7);
   fams.push_back(t2);
   fams.push_back(t3);
   fams.push_back(t4);
@@ -268,6 +295,116 @@ int main(int argc, char** argv) {
         return;
       }
       check_doc(doc, r.v, ctx, "packing M=" + std::to_string(M) + " F=" + std::to_string(F) + " L=" + kLong[li]);
+      return;
+    }
+    if (nm[1] == '6') {
+      unsigned kind = (unsigned)(idx % 2);
+      idx /= 2;
+      unsigned n = (unsigned)(idx % T6N);
+      unsigned f = (unsigned)(idx / T6N);
+      // fill: an INNER array of f/2 small numbers (the serializer sizes its first reservation by the number of
+      // children of the root, so the fill must not be made of root children); odd f: the first number is 10
+      Document d;
+      d.SetArray();
+      std::string exp = "[[";
+      {
+        Node inner;
+        inner.SetArray();
+        unsigned k = f / 2;
+        for (unsigned i = 0; i < k; i++) {
+          bool ten = (f & 1) && i == 0;
+          inner.PushBack(Node(uint64_t(ten ? 10 : 1)), d.GetAllocator());
+          exp += ten ? "10" : "1";
+          if (i + 1 < k) exp += ",";
+        }
+        d.PushBack(std::move(inner), d.GetAllocator());
+        exp += "],";
+      }
+      std::string sv(n, '\x01');
+      if (kind)
+        for (unsigned i = 1; i < n; i += 2) sv[i] = '"';
+      d.PushBack(Node(sv.data(), sv.size(), d.GetAllocator()), d.GetAllocator());
+      exp += "\"";
+      for (char c : sv) exp += c == '"' ? "\\\"" : "\\u0001";
+      exp += "\",1]";
+      d.PushBack(Node(uint64_t(1)), d.GetAllocator());
+      ctx.eval();
+      ctx.nontriv();
+      std::string desc = "fill " + std::to_string(f) + " bytes, string of " + std::to_string(n) + (kind ? " alternating 0x01/quote" : " x 0x01");
+      if (ctx.want_sample) ctx.sample(desc);
+      auto cmp = [&](WriteBuffer& wb, const char* st) {
+        SonicError e = d.Serialize(wb);
+        if (e != kErrorNone || wb.Size() != exp.size() || std::memcmp(wb.ToString(), exp.data(), exp.size()) != 0)
+          ctx.violation("fill_string_output", "ser_fill_string_output", desc, "[%s] Serialize gave err %d, %zu bytes; expected %zu bytes", st, (int)e, wb.Size(), exp.size());
+      };
+      {
+        WriteBuffer wb;
+        cmp(wb, "fresh");
+        cmp(wb, "reused");
+      }
+      {
+        WriteBuffer wb(16);
+        cmp(wb, "WriteBuffer(16)");
+      }
+      {
+        WriteBuffer wb(1);
+        cmp(wb, "WriteBuffer(1)");
+      }
+      return;
+    }
+    if (nm[1] == '7') {
+      size_t m = t7v.size();
+      const ref::Value& x = t7v[idx / (m * m)];
+      const ref::Value& y = t7v[(idx / m) % m];
+      const ref::Value& z = t7v[idx % m];
+      auto mk = [&](const ref::Value& nv) {
+        Node n;
+        if (nv.k == ref::Uint) n.SetUint64(nv.u);
+        else if (nv.k == ref::Sint) n.SetInt64((int64_t)nv.u);
+        else n.SetDouble(nv.dbl());
+        return n;
+      };
+      std::string desc = "numbers " + ref::show(x) + " , " + ref::show(y) + " , " + ref::show(z);
+      if (ctx.want_sample) ctx.sample(desc);
+      ctx.nontriv();
+      {
+        Document d;
+        d.SetArray();
+        d.PushBack(mk(x), d.GetAllocator());
+        d.PushBack(mk(y), d.GetAllocator());
+        d.PushBack(mk(z), d.GetAllocator());
+        ref::Value v = ref::Value::mk(ref::Arr);
+        v.a = {x, y, z};
+        check_doc(d, v, ctx, desc + " (array)");
+      }
+      {
+        Document d;
+        d.SetObject();
+        d.AddMember("a", mk(x), d.GetAllocator());
+        d.AddMember("b", mk(y), d.GetAllocator());
+        d.AddMember("c", mk(z), d.GetAllocator());
+        ref::Value v = ref::Value::mk(ref::Obj);
+        v.o.emplace_back("a", x);
+        v.o.emplace_back("b", y);
+        v.o.emplace_back("c", z);
+        check_doc(d, v, ctx, desc + " (object)");
+      }
+      {
+        Document d;
+        d.SetArray();
+        d.PushBack(mk(x), d.GetAllocator());
+        d.PushBack(Node("s"), d.GetAllocator());
+        Node inner;
+        inner.SetArray();
+        inner.PushBack(mk(y), d.GetAllocator());
+        d.PushBack(std::move(inner), d.GetAllocator());
+        d.PushBack(mk(z), d.GetAllocator());
+        ref::Value v = ref::Value::mk(ref::Arr);
+        ref::Value in = ref::Value::mk(ref::Arr);
+        in.a = {y};
+        v.a = {x, ref::Value::mkS("s"), in, z};
+        check_doc(d, v, ctx, desc + " (mixed)");
+      }
       return;
     }
     if (nm[1] == '2') {
